@@ -351,7 +351,7 @@ fn check_taiko(run: &mut Run, id: &str, bytes: &[u8], mods: u32, rate: Option<f6
 
 /// A native taiko file as text: dons / kats / finishers, drum rolls (slider lines), swells (spinner
 /// lines), uninherited and inherited timing points (scroll speed), header / EOL variants, junk lines.
-fn taiko_file(rng: &mut Rng, n: usize) -> Vec<u8> {
+pub fn taiko_file(rng: &mut Rng, n: usize) -> Vec<u8> {
     let version = *rng.pick(&[14, 14, 14, 128, 10, 7, 5]);
     let eol = if rng.chance(1, 4) { "\r\n" } else { "\n" };
     let mut s = String::new();
@@ -424,7 +424,7 @@ fn taiko_file(rng: &mut Rng, n: usize) -> Vec<u8> {
 }
 
 /// A native mania file as text: header / line-ending / BOM variants, section order, malformed lines.
-fn mania_file(rng: &mut Rng, n: usize) -> Vec<u8> {
+pub fn mania_file(rng: &mut Rng, n: usize) -> Vec<u8> {
     let version = *rng.pick(&[14, 14, 14, 128, 12, 9, 7, 5, 3]);
     let eol = if rng.chance(1, 4) { "\r\n" } else { "\n" };
     let cs = *rng.pick(&["1", "2", "3", "4", "4.5", "5", "5.5", "6", "7", "7.5", "8", "9", "10", "0", "0.4", "2.5", "18", "25", "-3", "abc"]);
